@@ -1829,6 +1829,11 @@ impl<'a, E: quiver_core::effects::Effect> Compiler<'a, E> {
 
         // If result type is never (empty union), pattern won't match - skip pattern matching code
         if self.is_never(result_type) {
+            // A condition containing a match that can never succeed always fails, whatever an
+            // earlier pattern in it matched: that earlier narrowing must not yield a complement.
+            if let Some(n) = narrowing.as_mut() {
+                n.disable();
+            }
             self.codegen.add_instruction(Instruction::Pop);
             self.codegen.add_instruction(Instruction::Tuple(NIL));
             return Ok(self.program.register_type(Type::nil()));
